@@ -909,7 +909,8 @@ Section Monotone.
         destruct (distribute_gen est true g (s_d st) m) as [[d' blk]|] eqn:Edist.
         + inversion H0; subst. cbn [s_d]. now apply (distribute_next (s_d st) m).
         + inversion H0; subst. reflexivity.
-      - destruct (mix_valid _ chans); [destruct (mix_apply _ _ _ _)|]; inversion Es; subst; reflexivity. }
+      - destruct (negb (zlen fracs =? zlen chans)); [inversion Es; subst; reflexivity|].
+        destruct (mix_valid _ chans); [destruct (mix_apply _ _ _ _)|]; inversion Es; subst; reflexivity. }
     assert (Hmono_weak : forall n n' bs, n <= n' -> mono_from n' bs -> mono_from n bs).
     { intros n n' [|b bs] Hle Hm; [exact I|]. cbn [mono_from] in *. split; [lia | tauto]. }
     destruct r as [rels [b|]|ok|k]; cbn [blocks_of flat_map app].
